@@ -976,3 +976,9 @@ class SymSet(object):
 
     def __repr__(self):
         return "SymSet(%r)" % (self._items,)
+
+
+def sym_set(iterable=()):
+    """The shadow installed as `set` (a function, so that module introspection
+    with inspect.isclass does not see a new class)."""
+    return SymSet(iterable)
